@@ -2,7 +2,7 @@
 not change afterwards - an upstream adapter that hands out the same array object twice (or a view of its own state) would silently
 rewrite the buffered history.  Chains  Output >> {Scale, ValueToGrid, Callback} >> {LinearTime, StepTime, SumOverTime, AvgOverTime} >> Input
 with a non-constant series; every pull is compared with the value computed from the published series.
-Bound: 3 upstream adapters x 4 time adapters x 2 request patterns x 12 publications.
+Bound: direct link + 3 upstream adapters x 4 time adapters x 4 (request pattern, memory limit) combinations x 12 publications.
 """
 import json
 import logging
@@ -20,6 +20,8 @@ SERIES = [3.0, 7.0, 2.0, 9.0, 4.0, 8.0, 1.0, 6.0, 5.0, 10.0, 0.5, 11.0]       # 
 
 
 def upstream(kind, grid):
+    if kind == "direct":
+        return None, 1.0
     if kind == "Scale":
         return fm.adapters.Scale(2.0), 2.0
     if kind == "Callback":
@@ -46,11 +48,23 @@ def expected(kind, f, t_prev, t):
 
 
 def main():
+    global SPILL
+    import tempfile
+    SPILL = tempfile.mkdtemp(prefix="verif_chain_")
+    try:
+        return _main()
+    finally:
+        import shutil
+        shutil.rmtree(SPILL, ignore_errors=True)
+
+
+def _main():
     viol, n = [], 0
     grid = fm.UniformGrid((3, 2))
-    for up in ("Scale", "ValueToGrid", "Callback"):
+    for up in ("direct", "Scale", "ValueToGrid", "Callback"):
         for kind in ("LinearTime", "StepTime", "SumOverTime", "AvgOverTime"):
-            for pattern in ((1, 3, 1), (2, 1, 4)):      # gaps between requests in hours (cycled)
+            for pattern, limit in (((1, 3, 1), None), ((2, 1, 4), None), ((1, 3, 1), 64000000), ((3, 4, 5), 64000000)):
+                # gaps between requests in hours (cycled); a memory limit that is never reached must not change anything either
                 n += 1
                 scalar = up == "ValueToGrid"
                 units = "m/s" if kind == "SumOverTime" else "m"
@@ -58,10 +72,17 @@ def main():
                 u, f = upstream(up, grid)
                 ad = fm.adapters.SumOverTime(step=None) if kind == "SumOverTime" else getattr(fm.adapters, kind)()      # linear integration
                 inp = fm.Input("in", fm.Info(time=T0, grid=grid, units=None))
-                out >> u >> ad >> inp
+                if u is None:
+                    out >> ad >> inp        # the time adapter buffers what the output hands out (possibly views of the output's own arrays)
+                else:
+                    out >> u >> ad >> inp
+                if limit is not None:
+                    for slot in (out, ad):
+                        slot.memory_limit = limit
+                        slot.memory_location = SPILL
                 inp.ping()
                 inp.exchange_info()
-                tag = f"Output >> {up} >> {kind} >> Input, request gaps {pattern} h"
+                tag = f"Output >> {up} >> {kind} >> Input, request gaps {pattern} h, memory limit {limit}"
                 try:
                     out.push_data(SERIES[0] if scalar else np.full(grid.data_shape, SERIES[0]), T0)
                     inp.pull_data(T0)
@@ -93,6 +114,6 @@ if __name__ == "__main__":
     if "--json" in sys.argv:
         print(json.dumps({"evaluations": n, "distinct_nontrivial": n, "violations": [{"case": x} for x in v[:3]],
                           "rule": "Output >> {Scale, ValueToGrid, Callback} >> {LinearTime, StepTime, SumOverTime, AvgOverTime} >> Input with a non-constant series: every pull equals the value computed from the published series",
-                          "bound": "3 upstream adapters x 4 time adapters x 2 request patterns x 12 publications", "exhaustive": True}))
+                          "bound": "direct link + 3 upstream adapters x 4 time adapters x 4 (request pattern, memory limit: none / never reached) x 12 publications", "exhaustive": True}))
     else:
         print(("CONFIRMED " + v[0]) if v else f"NOT-CONFIRMED {n} adapter chains deliver the values computed from the published series")
